@@ -60,7 +60,7 @@ fn native_spec() {
         if m.try_remove_one::<u16>("port").ok().flatten() != Some(80) || m.try_get_one::<u16>("port").ok().flatten().is_some() {
             println!("SPEC-REPLAY MISMATCH target={target} case=a correctly typed remove did not take the value out");
         }
-    } else if target == "trailing_positional" {
+    } else if target == "trailing_positional" || target == "escape_detected" {
         // C05: every token after the first bare `--` reaches the positionals verbatim and in order
         let toks = ["x", "--flag", "-f", "--opt=v", "sub", "--", "", "--help", "-h"];
         for shape in ["multi", "multi_then_single"] {
@@ -86,10 +86,10 @@ fn native_spec() {
                                 got.extend(m.get_one::<String>("target").cloned());
                             }
                             if got != tail || m.get_flag("flag") || m.get_one::<String>("opt").is_some() || m.subcommand_name().is_some() {
-                                println!("SPEC-REPLAY MISMATCH target=trailing_positional case={argv:?} ({shape}): positionals got {got:?}, flag={} opt={:?} sub={:?}", m.get_flag("flag"), m.get_one::<String>("opt"), m.subcommand_name());
+                                println!("SPEC-REPLAY MISMATCH target={target} case={argv:?} ({shape}): positionals got {got:?}, flag={} opt={:?} sub={:?}", m.get_flag("flag"), m.get_one::<String>("opt"), m.subcommand_name());
                             }
                         }
-                        Err(e) => println!("SPEC-REPLAY MISMATCH target=trailing_positional case={argv:?} ({shape}): rejected as {:?} although every token follows `--`", e.kind()),
+                        Err(e) => println!("SPEC-REPLAY MISMATCH target={target} case={argv:?} ({shape}): rejected as {:?} although every token follows `--`", e.kind()),
                     }
                 }
             }
